@@ -74,6 +74,11 @@ def one_case(chk, rng, attrs, sizes, cliques, order, mode):
                                     ltok(sched, lambda e: '%d %d' % e))
     info = dict(attrs=attrs, sizes=sizes, cliques=[list(c) for c in cliques], order_mode=mode, order=order if mode != 'none' else None,
                 elimination_order=eo, nodes=[list(c) for c in nodes], tree_edges=tree_edges, schedule=sched)
+    # (3) the graph GENERATED from mp_order's source (messages + dependency edges), on the tree's edges in the code's own orientation:
+    # the order the code returns must be a topological order of it (hypothesis of C12_src_every_topological_order_is_a_valid_schedule)
+    raw = [(idx[a], idx[b]) for a, b in jt.tree.edges()]
+    info['l3'] = 'mp_check %s %s' % (ltok(raw, lambda e: '%d %d' % e), ltok(sched, lambda e: '%d %d' % e))
+    info['raw_edges'] = raw
     return l1, l2, info, ids
 
 
@@ -112,6 +117,10 @@ def all_graphs(names):
 
 def main(chk):
     chk.prove()
+    tok, tmsg = getattr(chk, 'translators', {}).get('mp', (True, ''))
+    if not tok:
+        chk.violation(dict(kind='translator'), 'JunctionTree.mp_order left the translated subset: C12_src_every_topological_order_is_a_valid_schedule is not re-checked against the current source',
+                      dict(broken='Gen/MpOrder_gen.v (translator/py2gallina_mp.py on src/mbi/junction_tree.py)', translator_message=tmsg), found_input=False)
     rng = chk.rng
     cases = []
     # exhaustive: all labelled graphs on <= 4 (quick) / 5 (thorough) attributes x all elimination orders (+ default)
@@ -146,8 +155,17 @@ def main(chk):
         chk.count('mode.' + mode); chk.count('nodes=%d' % len(info['nodes']))
         chk.case(l1 + l2, len(info['nodes']) >= 2, info if len(chk.samples) < 2 and len(info['nodes']) >= 3 else None)
     outs = common.run_model(l1s + l2s, timeout=2400)
+    gouts = common.run_gen([info.pop('l3') for info, _ in infos], timeout=1200)
     for k, (info, ids) in enumerate(infos):
         judge(chk, outs[k], outs[len(l1s) + k], info, ids)
+        g = gouts[k]
+        want = 'messages=%d ' % (2 * len(info['raw_edges']))
+        if not (g.startswith(want) and g.endswith('perm=true topo=true')):
+            fails = [f for f in oracle(info['attrs'], info['cliques'], info['nodes'], info['tree_edges'], info['schedule']) if 'schedul' in f or 'message' in f]
+            chk.violation(dict(kind='mp-order', what=g[:40]), ('message schedule invalid: ' + '; '.join(fails[:2])) if fails else
+                          'mp_order() is not a topological order of the dependency graph generated from its source (or the generated functions could not be run): ' + g[:80],
+                          dict(info, generated_check=g, broken='Gen/MpOrder_gen.v (translator/py2gallina_mp.py on JunctionTree.mp_order)'), found_input=bool(fails))
+        chk.count('generated-mp-order')
     chk.extra['exhaustive'] = 'all labelled graphs on <= %d attributes x %s' % (kmax, 'all elimination orders (5 attributes: 12 sampled orders + default)' if chk.tier == 'thorough' else 'all orders for <=3, 6 sampled orders + default for 4')
     return chk.finish(rule='exhaustive small graphs (pairwise cliques, random attribute sizes incl. 1, random orientation) x elimination orders + default; random clique sets on 2-8 attributes '
                       '(rings, stars, nested, duplicated, any order) with order modes {None, permutation, int}. Compared: node set vs the model\'s maximal elimination cliques, default order vs the '
